@@ -902,6 +902,7 @@ func cmdC15(args []string) {
 	inst := fs.Int("instances", 1, "concrete instances per vector")
 	replayFile := fs.String("replay", "", "replay file of a previous run")
 	seqFile := fs.String("seqs", "", "NDJSON token life-cycle sequences from TLC (part c15seq)")
+	seqMid := fs.Bool("seqmid", false, "replay the thorough selection of sequences")
 	seqAll := fs.Bool("seqall", false, "replay every sequence (default: the quick selection)")
 	subset := fs.Int("subset", 0, "0 = all vectors; k = a seeded stratified subset: k rotating token classes in every (command, connection, work type) cell, plus valid and absent in the protected cells")
 	_ = fs.Parse(args)
@@ -1066,7 +1067,18 @@ func cmdC15(args []string) {
 			return
 		}
 		sort.Slice(qs, func(i, j int) bool { return fmt.Sprint(qs[i]) < fmt.Sprint(qs[j]) })
-		if !*seqAll {
+		if *seqMid {
+			// thorough: every same-connection sequence; of the expiry / restart / reuse shapes those whose two commands are the same
+			// or whose token was first used for submit (all five commands, both connection kinds)
+			var keep []seqVec
+			for _, q := range qs {
+				a, b := q.Steps[0], q.Steps[len(q.Steps)-1]
+				if b.Link == "same" || (a.Cmd == b.Cmd && a.Conn == b.Conn) || (a.Cmd == "submit" && a.Conn == b.Conn) {
+					keep = append(keep, q)
+				}
+			}
+			qs = keep
+		} else if !*seqAll {
 			qs = pickSequences(qs, *seed)
 		}
 		res.add("sequences", len(qs))
